@@ -50,6 +50,8 @@ def leaf_script(kind, i, key_x):
         return b'\xab' + P(key_x) + b'\xac'                        # OP_CODESEPARATOR <key> OP_CHECKSIG: the digest commits to the separator's position (0)
     if kind == 'big':
         return b'\x75' + P(bytes([i % 256]) * 300) + b'\x75\x51'
+    if kind == 'len32':
+        return b'\x75' + P(bytes([i % 256]) * 28) + b'\x75\x51'      # a leaf script of exactly 32 bytes (the size of a hash: it is a script all the same)
     if kind == 'huge':
         # a leaf script that is itself longer than a stack element may be (a script is not an element of the stack: only its arguments are limited)
         return b'\x75' + P(bytes([i % 256]) * 520) + b'\x75' + P(bytes([7]) * (80 + i % 40)) + b'\x75\x51'
@@ -218,7 +220,7 @@ def check_case(c, ctx):
         if rb.timed_out:
             raise core.Inconclusive()
         last = rb.out.strip().splitlines()[-1:] if rb.out.strip() else []
-        want_top = [b'01'] if kind in ('checksig', 'codesep', 'same', 'args', 'big', 'huge', 'zero00', 'ffff', 'prefix8a', 'prefix8b') else [b'%02x' % (1 + idx % 16)]
+        want_top = [b'01'] if kind in ('checksig', 'codesep', 'same', 'args', 'big', 'huge', 'len32', 'zero00', 'ffff', 'prefix8a', 'prefix8b') else [b'%02x' % (1 + idx % 16)]
         if kind == 'empty' and last and int(last[0] or b'0', 16) != 0:
             want_top = last          # an empty leaf leaves the (non-zero) placeholder / signature item: any single true item
         if kind == 'nosig':
@@ -306,7 +308,7 @@ def check_keypath(c, ctx):
         ctx.inconclusive += 1
 
 
-KIND_SETS = [['huge'], ['huge', 'drop'], ['prefix8a', 'prefix8b'], ['prefix8b', 'prefix8a'], ['drop', 'prefix8b', 'prefix8a', 'same'], ['nosig'], ['nosig', 'drop'], ['empty'], ['empty', 'drop'], ['drop', 'empty', 'checksig'], ['drop'], ['same'], ['drop', 'same', 'same'], ['checksig', 'drop'], ['args', 'drop'], ['checksig'], ['big', 'drop'], ['drop', 'checksig', 'args', 'same'], ['zero00'], ['zero00'], ['zero00', 'ffff'], ['ffff', 'drop'], ['codesep'], ['codesep', 'drop']]
+KIND_SETS = [['len32'], ['drop', 'len32'], ['huge'], ['huge', 'drop'], ['prefix8a', 'prefix8b'], ['prefix8b', 'prefix8a'], ['drop', 'prefix8b', 'prefix8a', 'same'], ['nosig'], ['nosig', 'drop'], ['empty'], ['empty', 'drop'], ['drop', 'empty', 'checksig'], ['drop'], ['same'], ['drop', 'same', 'same'], ['checksig', 'drop'], ['args', 'drop'], ['checksig'], ['big', 'drop'], ['drop', 'checksig', 'args', 'same'], ['zero00'], ['zero00'], ['zero00', 'ffff'], ['ffff', 'drop'], ['codesep'], ['codesep', 'drop']]
 PREFIXES = [None, None, 'bc', 'tb', 'bcrt', 'xyz', 'a', 'x1', 'tb1', 'bc11', 'a1b', '1x', 'q~!1']
 
 
@@ -340,7 +342,7 @@ def w_prefix8(ctx, wid, seed):
 def random_cases(draw):
     n = draw(st.one_of(st.integers(1, 20), st.integers(1, 200), st.sampled_from([1, 2, 3, 63, 64, 65, 127, 128, 129, 255, 256, 257, 1023, 1024])))
     idx = draw(st.integers(0, n - 1))
-    kinds = draw(st.lists(st.sampled_from(['drop', 'same', 'checksig', 'args', 'big', 'zero00', 'zero00', 'ffff', 'codesep', 'empty', 'huge']), min_size=1, max_size=5))
+    kinds = draw(st.lists(st.sampled_from(['drop', 'same', 'checksig', 'args', 'big', 'zero00', 'zero00', 'ffff', 'codesep', 'empty', 'huge', 'len32']), min_size=1, max_size=5))
     if n > 100:
         kinds = [k for k in kinds if k not in ('big', 'huge')] or ['drop']
     # (the longest prefix that still gives an address of at most 90 characters is 30 characters long; longer ones must be refused - see check_long_prefix)
